@@ -17,7 +17,7 @@ CONSTANTS Specs,      \* grid specifications (abstract ids)
           Bug         \* "none" | "energyOrderByRotation"
 
 GridArts == {"array", "volumes", "adjacency", "borders", "distances"}
-Arts == GridArts \cup {"pt", "energy", "rate", "eig"}
+Arts == GridArts \cup {"pt", "energy", "rate", "eig", "traj", "assign", "msm"}
 None == [spec |-> 0, order |-> "none"]
 
 VARIABLES cur,     \* the grid specification being worked on
@@ -54,17 +54,25 @@ BuildRate == /\ \A a \in RateInputs : Have(mem, a)
              /\ mem' = [mem EXCEPT !["rate"] = mem["energy"]]
              /\ good' = (good /\ \A a, b \in RateInputs : mem[a].spec = mem[b].spec /\ mem[a].order = mem[b].order)
              /\ UNCHANGED <<cur, store>>
-Decompose == /\ Have(mem, "rate") /\ mem' = [mem EXCEPT !["eig"] = mem["rate"]]
+Decompose == /\ (Have(mem, "rate") \/ Have(mem, "msm"))
+             /\ mem' = [mem EXCEPT !["eig"] = IF Have(mem, "rate") THEN mem["rate"] ELSE mem["msm"]]
              /\ UNCHANGED <<cur, store, good>>
+(* workflow run_msm: a trajectory of the two molecules (environment), its frames assigned to grid cells, MSM *)
+Simulate == /\ Have(mem, "array") /\ mem' = [mem EXCEPT !["traj"] = Tag(cur, "frames")] /\ UNCHANGED <<cur, store, good>>
+Assign == /\ Have(mem, "array") /\ (Have(mem, "traj") \/ Have(mem, "pt"))
+          /\ mem' = [mem EXCEPT !["assign"] = mem["array"]]           \* cell indices refer to the order of the array
+          /\ UNCHANGED <<cur, store, good>>
+BuildMsm == /\ Have(mem, "assign") /\ mem' = [mem EXCEPT !["msm"] = mem["assign"]] /\ UNCHANGED <<cur, store, good>>
 
 FileArts == GridArts \cup {"energy"}           \* what the workflows persist between rules (pt and rate files behave alike)
+SmallFileArts == {"volumes", "energy"}         \* quick configuration: `FileArts <- SmallFileArts' (the other files behave alike)
 Next == (\E s \in Specs : NewSpec(s)) \/ BuildGrid \/ (\E a \in FileArts : Write(a) \/ Read(a))
-        \/ GenPT \/ ComputeEnergy \/ BuildRate \/ Decompose
+        \/ GenPT \/ ComputeEnergy \/ BuildRate \/ Decompose \/ Simulate \/ Assign \/ BuildMsm
 Spec == Init /\ [][Next]_vars
 
 (* ---- system invariants ---- *)
 (* every artefact that exists is indexed by the one grid order *)
-OneCellOrder == \A a \in Arts : (Have(mem, a) => mem[a].order = "grid")
+OneCellOrder == \A a \in Arts \ {"traj"} : (Have(mem, a) => mem[a].order = "grid")
                                /\ \A s \in Specs : (Have(store[s], a) => store[s][a].order = "grid")
 (* a grid directory only ever holds artefacts of its own specification *)
 DirectoriesArePure == \A s \in Specs, a \in Arts : Have(store[s], a) => store[s][a].spec = s
